@@ -141,14 +141,14 @@ def searchAndReserve (order cls loc start : Nat) : Prog (Res (Nat × Nat)) := do
   let near := max (nt / 16) 4
   let start := start / nextPow2 (2 * near) * nextPow2 (2 * near)
   let ros := fun i => reserveOrSteal c i order cls loc
-  let r1 ←
+  let r1 ← (
     if order < c.g.hugeOrder then
       Trees.searchBest c.tf nt 3 start 1 near
         (fun t f => match rateBase c cls order t f with
           | .match p => .match p
           | .demote => if f = c.tf then .demote else .invalid
           | _ => .invalid) ros
-    else pure (.error .memory)
+    else pure (.error .memory))
   match r1 with
   | .error .memory =>
     Trees.searchBest c.tf nt 8 start 0 nt
@@ -176,37 +176,63 @@ def demoteLocal (r : Request) (frame : Option Nat) : Prog (Res (Nat × Nat)) := 
   match d with
   | none => return .error .memory
   | some (row, old) =>
-    match old with
-    | some o => tunreserve c (o.row / c.g.treeRows) o.free o.cls
-    | none => pure ()
+    let _ ← (match old with
+      | some o => tunreserve c (o.row / c.g.treeRows) o.free o.cls
+      | none => pure ())
     let lr ← Lower.get c.g row r.order frame
     match lr with
     | .error .memory => do tput c (row / c.g.treeRows) (2 ^ r.order); return .error .memory
     | .error e => return .error e
     | .ok f => return .ok (f, r.cls)
 
+/-- out-of-memory handling shared by `get` and `get_at`: steal from, then demote, other slots -/
+def getFallback (r : Request) (frame : Option Nat) : Prog (Res (Nat × Nat)) := do
+  let s ← stealLocal c r frame
+  match s with
+  | .error .memory => demoteLocal c r frame
+  | x => return x
+
+/-- `get_at`: the attempt through the own local reservation (`none` = continue globally) -/
+def getAtLocal (frame : Nat) (r : Request) : Prog (Option (Res (Nat × Nat))) :=
+  match r.loc with
+  | some l => do
+    let lr ← getLocal c r.order r.cls l (some frame)
+    match lr with
+    | .error (.memory, _) => return none
+    | .error (e, _) => return some (.error e)
+    | .ok x => return some (.ok x)
+  | none => return none
+
 /-- `LLFree::get_at` -/
 def getAt (frame : Nat) (r : Request) : Prog (Res (Nat × Nat)) := do
-  let viaLocal : Option (Res (Nat × Nat)) ←
-    match r.loc with
-    | some l => do
-      let lr ← getLocal c r.order r.cls l (some frame)
-      match lr with
-      | .error (.memory, _) => pure none
-      | .error (e, _) => pure (some (.error e))
-      | .ok x => pure (some (.ok x))
-    | none => pure none
+  let viaLocal ← getAtLocal c frame r
   match viaLocal with
   | some x => return x
   | none =>
     let g1 ← stealGlobal c (frame / c.tf) r.cls r.order (some frame)
     match g1 with
-    | .error .memory =>
-      let g2 ← stealLocal c r (some frame)
-      match g2 with
-      | .error .memory => demoteLocal c r (some frame)
-      | x => return x
+    | .error .memory => getFallback c r (some frame)
     | x => return x
+
+/-- `get` without target: local reservation / reserve a new tree, or the global search -/
+def getFirst (r : Request) (cl : Option Nat) : Prog (Res (Nat × Nat)) :=
+  let len := cl.getD 0
+  let nt := c.ntrees
+  let startIdx := (if len = 0 then 0 else nt / len) * r.loc.getD 0
+  let global : Prog (Res (Nat × Nat)) :=
+    Trees.searchBest c.tf nt 8 startIdx 0 nt
+      (fun t free => if free < 2 ^ r.order then .invalid else c.policy r.cls t free)
+      (fun i => stealGlobal c i r.cls r.order none)
+  match r.loc, cl with
+  | some l, some len =>
+    if len > 0 && len < nt then do
+      let lr ← getLocal c r.order r.cls l none
+      match lr with
+      | .ok x => return .ok x
+      | .error (.memory, st) => searchAndReserve c r.order r.cls l (st.getD startIdx)
+      | .error (e, _) => return .error e
+    else global
+  | _, _ => global
 
 /-- `LLFree::get` -/
 def get (frame : Option Nat) (r : Request) : Prog (Res (Nat × Nat)) := do
@@ -218,40 +244,9 @@ def get (frame : Option Nat) (r : Request) : Prog (Res (Nat × Nat)) := do
   | some f => getAt c f r
   | none =>
     let cl ← Locals.classLocals c r.cls
-    let len := cl.getD 0
-    let nt := c.ntrees
-    let startIdx := (if len = 0 then 0 else nt / len) * r.loc.getD 0
-    let useLocal := match r.loc, cl with
-      | some _, some len => len > 0 && len < nt
-      | _, _ => false
-    let first : Res (Nat × Nat) ←
-      match r.loc with
-      | some l =>
-        if useLocal then do
-          let lr ← getLocal c r.order r.cls l none
-          match lr with
-          | .ok x => pure (.ok x)
-          | .error (.memory, st) =>
-            searchAndReserve c r.order r.cls l (st.getD startIdx)
-          | .error (e, _) => pure (.error e)
-        else
-          Trees.searchBest c.tf nt 8 startIdx 0 nt
-            (fun t free => if free < 2 ^ r.order then .invalid else c.policy r.cls t free)
-            (fun i => stealGlobal c i r.cls r.order none)
-      | none =>
-        Trees.searchBest c.tf nt 8 startIdx 0 nt
-          (fun t free => if free < 2 ^ r.order then .invalid else c.policy r.cls t free)
-          (fun i => stealGlobal c i r.cls r.order none)
+    let first ← getFirst c r cl
     match first with
-    | .error .memory =>
-      let s ← stealLocal c r none
-      match s with
-      | .error .memory =>
-        let d ← demoteLocal c r none
-        match d with
-        | .error .memory => return .error .memory
-        | x => return x
-      | x => return x
+    | .error .memory => getFallback c r none
     | x => return x
 
 /-- `LLFree::put` -/
